@@ -190,6 +190,7 @@ func main() {
 	r.timeTokens()
 	r.rsaTime()
 	r.jwtHS()
+	r.jwtJSON()
 	r.jwtRS()
 	r.kidMatrix()
 	r.claims()
